@@ -349,6 +349,25 @@ class Endpoints:
         if isinstance(e, ast.Call):
             tgt = self.M.resolve_call(self.f, e)
             short = tgt[1].split(".")[-1] if tgt[0] in ("ext", "name") else ""
+            if tgt[0] == "repo" and tgt[1].cls is None and getattr(self, "depth", 0) < 3:
+                # a straight-line helper of the package: its returned value(s) under the endpoint knowledge of the arguments
+                fn = tgt[1]
+                try:
+                    b = self.M.bind(e, fn)
+                except Unrecognised:
+                    return (ANY_, ANY_)
+                sub = Endpoints(self.M, fn)
+                sub.depth = getattr(self, "depth", 0) + 1
+                for p, n in b.items():
+                    sub.env[p] = self.v(n) if isinstance(n, ast.AST) else SC
+                body = fn.body
+                if all(isinstance(st_, (ast.Assign, ast.AugAssign, ast.Return, ast.Expr)) for st_ in body) and body and isinstance(body[-1], ast.Return):
+                    sub.run_block(body[:-1])
+                    rv = body[-1].value
+                    if isinstance(rv, ast.Tuple):
+                        return ("T", tuple(sub.v(x) for x in rv.elts))
+                    return sub.v(rv) if rv is not None else SC
+                return (ANY_, ANY_)
             if tgt[0] == "ext" and short == "linspace" and len(e.args) >= 2:
                 z = lambda n: isinstance(n, ast.Constant) and n.value == 0
                 return (ZERO_ if z(e.args[0]) else ANY_, ZERO_ if z(e.args[1]) else ANY_)
@@ -391,8 +410,9 @@ class Endpoints:
                     if isinstance(t, ast.Name):
                         self.env[t.id] = val
                     elif isinstance(t, (ast.Tuple, ast.List)):
-                        for x in t.elts:
+                        parts = val[1] if isinstance(val, tuple) and val and val[0] == "T" and len(val[1]) == len(t.elts) else None
+                        for i_, x in enumerate(t.elts):
                             if isinstance(x, ast.Name):
-                                self.env[x.id] = ("s", "s")
+                                self.env[x.id] = parts[i_] if parts is not None else ("s", "s")
             elif isinstance(s, ast.AugAssign) and isinstance(s.target, ast.Name):
                 self.env[s.target.id] = self.v(ast.BinOp(left=s.target, op=s.op, right=s.value))
